@@ -70,3 +70,57 @@ func VIoNodes(g *MIMOControlGene) []*network.NNode { return g.ioNodes }
 func VNewGenomeRand(newId, in, out, n, maxHidden int, recurrent bool, linkProb float64, opts *neat.Options) (*Genome, error) {
 	return newGenomeRand(newId, in, out, n, maxHidden, recurrent, linkProb, opts)
 }
+
+// VOrgInfo is a read-only view of the unexported Organism fields
+type VOrgInfo struct {
+	OriginalFitness           float64
+	ToEliminate               bool
+	IsChampion                bool
+	SuperChampOffspring       int
+	IsPopulationChampion      bool
+	IsPopulationChampionChild bool
+	HighestFitness            float64
+	MutationStructBaby        bool
+	MateBaby                  bool
+	HasPhenotype              bool
+}
+
+// VOrganismInfo reads the unexported fields of an organism
+func VOrganismInfo(o *Organism) VOrgInfo {
+	return VOrgInfo{o.originalFitness, o.toEliminate, o.isChampion, o.superChampOffspring, o.isPopulationChampion,
+		o.isPopulationChampionChild, o.highestFitness, o.mutationStructBaby, o.mateBaby, o.orgPhenotype != nil}
+}
+
+// VOrgPhenotype reads the cached phenotype (nil if none) without building it
+func VOrgPhenotype(o *Organism) *network.Network { return o.orgPhenotype }
+
+// VPopulationCounters reads the innovation record and the two counters of a population
+func VPopulationCounters(p *Population) (innovations []Innovation, nextInnovNum int64, nextNodeId int32) {
+	p.mutex.Lock()
+	defer p.mutex.Unlock()
+	return append([]Innovation(nil), p.innovations...), p.nextInnovNum, p.nextNodeId
+}
+
+// VSpeciate is Population.speciate
+func VSpeciate(p *Population, opts *neat.Options, orgs []*Organism) error {
+	return p.speciate(opts.NeatContext(), orgs)
+}
+
+// VSpeciesReproduce is Species.reproduce
+func VSpeciesReproduce(s *Species, opts *neat.Options, generation int, p *Population, sorted []*Species) ([]*Organism, error) {
+	return s.reproduce(opts.NeatContext(), generation, p, sorted)
+}
+
+// VPrepare / VReproduce / VFinalize are the three phases of the sequential executor
+func VPrepare(ex *SequentialPopulationEpochExecutor, opts *neat.Options, generation int, p *Population) error {
+	return ex.prepareForReproduction(opts.NeatContext(), generation, p)
+}
+func VReproduce(ex *SequentialPopulationEpochExecutor, opts *neat.Options, generation int, p *Population) error {
+	return ex.reproduce(opts.NeatContext(), generation, p)
+}
+func VFinalize(ex *SequentialPopulationEpochExecutor, opts *neat.Options, p *Population) error {
+	return ex.finalizeReproduction(opts.NeatContext(), p)
+}
+
+// VSortedSpecies reads the executor's species order and best species id after VPrepare
+func VSortedSpecies(ex *SequentialPopulationEpochExecutor) ([]*Species, int) { return ex.sortedSpecies, ex.bestSpeciesId }
